@@ -56,6 +56,8 @@ def shards(tier):
                 orders.append(list(ks)[::-1])
             for o in orders:
                 out.append({"grid": o, "kdt": "int64"})
+    out.append({"grid": list(range(-20, 20)), "kdt": "int64"})           # 40 keys: size / threshold effects
+    out.append({"grid": list(range(100, 117)), "kdt": "uint8"})
     for ks in DTYPE_KEYSETS:
         for kdt in ("int32", "int8", "uint8", "uint64", None):
             if _fits(ks, kdt):
@@ -78,7 +80,8 @@ BFS_CONFIGS_T = [[ks, m, "int64", vf] for ks in ([0, 1], [1, 2, 3], [7, -3], [0,
 
 def cases(shard, tier):
     keys, kdt = shard["grid"], shard["kdt"]
-    for mod in MODS:
+    mods = MODS + {"int8": [100, 127], "uint8": [200, 255]}.get(kdt, [])
+    for mod in mods:
         for vf in VFORMS:
             if vf == "scalar_half" and mod not in (None, 2):
                 continue
